@@ -79,6 +79,8 @@ theorem unchecked_assertions_expected : Gen.uncheckedAssertions =
     [("Value.Class", "v.value.(*object)"),
      ("Value.IsFunction", "v.value.(*object)"),
      ("Value.bool", "v.value.(bool)"),
+     ("Value.carried", "v.value.(result)"),
+     ("Value.carrying", "v.value.(result)"),
      ("Value.evaluateBreak", "v.value.(result)"),
      ("Value.evaluateBreakContinue", "v.value.(result)"),
      ("Value.exportPath", "lengthValue.value.(uint32)"),
